@@ -7,10 +7,15 @@
 package main
 
 import (
+	"encoding/hex"
 	"fmt"
 	"math/rand"
+	"net"
+	"os"
+	"path/filepath"
 	"strings"
 	"sync/atomic"
+	"time"
 
 	"verifharness/lib/drv"
 	"verifharness/lib/ev"
@@ -187,5 +192,84 @@ func childScale(b run.Batch, r *ev.Result, rng *rand.Rand) {
 			"open descriptors at quiescence grew from %d (after 1 repetition) to %d (after 3 repetitions) of the same episode mix – onboarding servers whose peers answer %v with %d devices listed, sync request classes, raw HTTP: %d per repetition, the episodes leave descriptors behind", counts[0], counts[1], kinds, ndev, growth/2)
 		return
 	}
-	w.live("leak monitor episodes")
+	if !w.live("leak monitor episodes") {
+		return
+	}
+	w.stalledReaders()
+}
+
+// stalledReaders: HTTP clients that request a large reply (archive of several
+// MiB, statistics of all devices, recent reports, equipment list) and never
+// read it. Then the liveness triple, the lock probe and a judged shutdown with
+// those connections still open.
+func (w *world) stalledReaders() {
+	r, rng := w.r, w.rng
+	// reports of the banned device X that are still on disk (they are skipped
+	// at start-up): several MiB that do not compress
+	filler := make([]byte, 80*80000)
+	rng.Read(filler)
+	for i := 0; i < len(filler); i += 80 {
+		copy(filler[i:], idBytes(w.X.ID))
+	}
+	run.Op("append %d bytes of reports of banned device %d to equipment-reports.dat (public files larger than any socket buffer)", len(filler), w.X.ID)
+	f, err := os.OpenFile(filepath.Join(w.Dir, "equipment-reports.dat"), os.O_APPEND|os.O_WRONLY, 0644)
+	if err != nil {
+		r.Inconc("cannot extend the report file: " + err.Error())
+		return
+	}
+	f.Write(filler)
+	f.Close()
+	st, body, err := w.do("GET", "/api/v1/archive", nil)
+	if err != nil || st != 200 || len(body) < len(filler)*9/10 {
+		r.Inconc(fmt.Sprintf("a reading client did not get the large archive: status %d err %v len %d", st, err, len(body)))
+		return
+	}
+	r.Count("stall.archive_read_by_wellbehaved_client", 1)
+	time.Sleep(100 * time.Millisecond) // archive rate limiter (3 per 60 ms)
+	off := w.offset()
+	paths := []string{"/api/v1/archive", fmt.Sprintf("/api/v1/all-device-stats?timeslot_offset=%d", off), "/api/v1/recent-reports?publicKey=" + hex.EncodeToString(w.A.Key.Pub[:]), "/api/v1/equipment", "/api/v1/archive"}
+	d := smallWindowDialer()
+	var held []net.Conn
+	defer func() {
+		for _, c := range held {
+			c.Close()
+		}
+	}()
+	for _, p := range paths {
+		run.Op("GET %s from a client with a 2 KiB receive buffer that never reads the reply", p)
+		c, err := d.Dial("tcp", fmt.Sprintf("127.0.0.1:%d", w.HTTP))
+		if err != nil {
+			r.Inconc("stalled reader: " + err.Error())
+			return
+		}
+		held = append(held, c)
+		fmt.Fprintf(c, "GET %s HTTP/1.1\r\nHost: x\r\n\r\n", p)
+		r.Eval(1)
+		r.Count("inputs.http", 1)
+		r.Count("inputs.http.stalled_reader", 1)
+		r.Nontrivial("stalled/" + p)
+	}
+	parked := 0
+	for i := 0; i < 600 && parked == 0; i++ {
+		parked = 0
+		for _, blk := range strings.Split(stacks(), "\n\n") {
+			if strings.Contains(blk, "ArchiveHandler") && strings.Contains(blk, "net.(*conn).Write") {
+				parked++
+			}
+		}
+		if parked == 0 {
+			time.Sleep(10 * time.Millisecond)
+		}
+	}
+	if parked == 0 {
+		r.Inconc("the archive handler of the stalled reader was never seen parked in conn.Write (reply swallowed by socket buffers?)")
+		return
+	}
+	r.Count("stall.archive_handlers_parked_in_write", int64(parked))
+	if !w.live("large replies requested by clients that do not read them") {
+		return
+	}
+	// shutdown with the stalled readers still connected
+	r.Count("shutdown.with_stalled_http_readers", 1)
+	w.closeJudged("stalled HTTP readers", held, fmt.Sprintf("%d HTTP clients that requested large replies and do not read", len(held)))
 }
